@@ -468,6 +468,86 @@ SHAPES = {
     ],
 }
 
+# ---- follow-up (wave 5): the top-level lists of a collection adapter (seeded C02-12 and its class)
+EVAL_LOOP = """        for evaluated_clip in obj.clip_evaluations:
+            self.clip_evaluation_adapter.to_aoef(evaluated_clip)
+
+        return EvaluationObject("""
+REWRITES.update({
+    # the seeded change's shape, done right: the lists are collected per clip evaluation and de-duplicated by uuid
+    "RW1-evaluation-lists-collected-and-deduplicated": [
+        ("evaluation.py", EVAL_LOOP,
+         "        collected_annotations, collected_predictions = {}, {}\n"
+         "        for evaluated_clip in obj.clip_evaluations:\n"
+         "            self.clip_evaluation_adapter.to_aoef(evaluated_clip)\n"
+         "            a = self.clip_annotations_adapter.to_aoef(evaluated_clip.annotations)\n"
+         "            p = self.clip_predictions_adapter.to_aoef(evaluated_clip.predictions)\n"
+         "            collected_annotations.setdefault(a.uuid, a)\n"
+         "            collected_predictions.setdefault(p.uuid, p)\n\n"
+         "        return EvaluationObject("),
+        ("evaluation.py", "            clip_annotations=self.clip_annotations_adapter.values(),\n",
+         "            clip_annotations=list(collected_annotations.values()) or None,\n"),
+        ("evaluation.py", "            clip_predictions=self.clip_predictions_adapter.values(),\n",
+         "            clip_predictions=list(collected_predictions.values()) or None,\n"),
+    ],
+    # annotations first, predictions next, then the clip evaluations (last to first); the stores read into locals
+    "RW2-evaluation-converted-in-three-passes": [
+        ("evaluation.py", EVAL_LOOP,
+         "        for evaluated_clip in obj.clip_evaluations:\n"
+         "            self.clip_annotations_adapter.to_aoef(evaluated_clip.annotations)\n"
+         "        for evaluated_clip in obj.clip_evaluations:\n"
+         "            self.clip_predictions_adapter.to_aoef(evaluated_clip.predictions)\n"
+         "        for evaluated_clip in reversed(list(obj.clip_evaluations)):\n"
+         "            self.clip_evaluation_adapter.to_aoef(evaluated_clip)\n"
+         "        stored_annotations = self.clip_annotations_adapter.values()\n"
+         "        stored_predictions = self.clip_predictions_adapter.values()\n\n"
+         "        return EvaluationObject("),
+        ("evaluation.py", "            clip_annotations=self.clip_annotations_adapter.values(),\n",
+         "            clip_annotations=stored_annotations,\n"),
+        ("evaluation.py", "            clip_predictions=self.clip_predictions_adapter.values(),\n",
+         "            clip_predictions=stored_predictions,\n"),
+    ],
+})
+MUTANTS.update({
+    # the matches listed per clip evaluation: a Match object shared by two clip evaluations is defined twice
+    "W1-evaluation-matches-listed-per-clip-evaluation": [
+        ("evaluation.py", "            matches=self.match_adapter.values(),\n",
+         "            matches=[self.match_adapter.to_aoef(m) for e in obj.clip_evaluations for m in e.matches] or None,\n"),
+    ],
+    # C02-12 with a de-duplication of *adjacent* repeats only: [ce(A, P1), ce(B, Q), ce(A, P2)] defines A twice
+    "W2-evaluation-clip-annotations-adjacent-repeats-only": [
+        ("evaluation.py", EVAL_LOOP,
+         "        for evaluated_clip in obj.clip_evaluations:\n"
+         "            self.clip_evaluation_adapter.to_aoef(evaluated_clip)\n"
+         "        listed = []\n"
+         "        for evaluated_clip in obj.clip_evaluations:\n"
+         "            a = self.clip_annotations_adapter.to_aoef(evaluated_clip.annotations)\n"
+         "            if not listed or listed[-1].uuid != a.uuid:\n"
+         "                listed.append(a)\n\n"
+         "        return EvaluationObject("),
+        ("evaluation.py", "            clip_annotations=self.clip_annotations_adapter.values(),\n",
+         "            clip_annotations=listed or None,\n"),
+    ],
+    # recording sets / datasets: the owners listed recording by recording, then whoever else the store holds
+    "W3-recording-set-users-listed-per-recording": [
+        ("recording_set.py", "            users=self.user_adapter.values(),\n",
+         "            users=(lambda own: (own + [u for u in self.user_adapter.values() or [] if u.uuid not in {o.uuid for o in own}]) or None)(\n"
+         "                [self.user_adapter.to_aoef(u) for r in obj.recordings for u in r.owners or []]),\n"),
+    ],
+    # prediction sets / model runs: sound event predictions listed clip prediction by clip prediction
+    "W4-prediction-set-sound-event-predictions-listed-per-clip": [
+        ("prediction_set.py", "            sound_event_predictions=self.sound_event_prediction_adapter.values(),\n",
+         "            sound_event_predictions=[self.sound_event_prediction_adapter.to_aoef(p) for c in obj.clip_predictions "
+         "for p in c.sound_events] or None,\n"),
+    ],
+    # annotation sets / projects / evaluation sets: sequence annotations listed clip annotation by clip annotation
+    "W5-annotation-set-sequence-annotations-listed-per-clip": [
+        ("annotation_set.py", "            sequence_annotations=self.sequence_annotations_adapter.values(),\n",
+         "            sequence_annotations=[self.sequence_annotations_adapter.to_aoef(a) for c in obj.clip_annotations "
+         "for a in c.sequences] or None,\n"),
+    ],
+})
+
 
 def sh(cmd, **kw):
     return subprocess.run(cmd, shell=True, stdout=subprocess.PIPE, stderr=subprocess.STDOUT, text=True, **kw)
